@@ -85,6 +85,15 @@ theorem timed_limits_ok (fp : FP) (p : Params) (white ponderOpt : Bool) (g : Go)
     simp only at this
     simp only [goBudget, if_neg hmt, budget, margin_eq p.buffer _ ht]; exact this
 
+/-- The round-0 function `Tm.alloc` (to which the integer slices regenerated from enginecontrol.cpp are proved equal in
+    `Bridge/Time.lean`) is the clock branch of this model on the property's domain. -/
+theorem translated_alloc_is_model (fp : FP) (p : Params) (time inc oTime oInc mtg : Int) (ponderOpt : Bool)
+    (ht : 0 ≤ time) (hi : 0 ≤ inc) (hm : 0 ≤ mtg) (hr : 1 ≤ p.maxRem) :
+    let L := alloc time inc mtg p.maxRem p.buffer (ponderBonus fp p time inc oTime oInc mtg ponderOpt)
+               (fun m => fp.scale m (movesEff mtg p.maxRem) p.maxUsage)
+    L.soft = clockSoft fp p time inc oTime oInc mtg ponderOpt ∧ L.hard = clockHard fp p time inc oTime oInc mtg ponderOpt :=
+  alloc_eq_clock fp p time inc oTime oInc mtg ponderOpt ht hi hm hr
+
 /-! ## Single legal move, ponderhit, stop -/
 
 /-- The single-legal-move clamp keeps `1 ≤ soft ≤ hard ≤ B` (and caps both at 100 ms). -/
